@@ -3,7 +3,6 @@ package larking
 import (
 	"context"
 	"net/http"
-	"net/url"
 	"strconv"
 	"time"
 
@@ -37,27 +36,6 @@ func refPercentDecode(s string) ([]byte, bool) {
 		}
 	}
 	return out, true
-}
-
-type vfInterceptorLog struct {
-	calls  int
-	method string
-}
-
-func vfGRPCRequest(ct string, payload []byte, extra http.Header) *http.Request {
-	frame := append([]byte{0, 0, 0, 0, byte(len(payload))}, payload...)
-	h := http.Header{"Content-Type": []string{ct}, "Te": []string{"trailers"}}
-	for k, v := range extra {
-		h[k] = v
-	}
-	return &http.Request{
-		Method:        "POST",
-		URL:           &url.URL{Path: "/vf.S/M0"},
-		Header:        h,
-		Body:          vfNopCloser{&vfWholeReader{data: frame}},
-		ContentLength: -1,
-		ProtoMajor:    2,
-	}
 }
 
 // VerifH_serveGRPC (C05, C14, C18): one unary call through the real serveGRPC with the
@@ -166,7 +144,12 @@ func VerifH_serveGRPC() {
 func VerifH_serveGRPC_timeout() {
 	in := schemaRoute()
 	out := newFakeMD("vf.Resp", strField("r"))
-	mux, srv, _ := vfMuxWith(vfHTTPRule("GET", "/aa/{f}"), in, out)
+	var topts []MuxOption
+	if vfBool() {
+		topts = append(topts, StatsOption(&fakeStats{})) // a stats handler must not change the deadline
+		vfCover("with-stats")
+	}
+	mux, srv, _ := vfMuxWith(vfHTTPRule("GET", "/aa/{f}"), in, out, topts...)
 	var tv string
 	var want time.Duration
 	wellFormed := vfBool()
